@@ -15,70 +15,44 @@ set_option linter.unusedVariables false
 namespace CifModel.Lemmas.WriterKeys
 open CifModel CifModel.Model CifModel.Model.Writer CifModel.Gen CifModel.Lemmas.WriterTotal CifModel.Lemmas.WriterV1
 
-/-- **the keys `write_table` writes** (all others are refused with CIF_DISALLOWED_VALUE), as a predicate on the key alone.
-    Lines are those of `Spec.splitLines` (terminators LF, CR LF, CR); lengths in code units; `LINE` = 2048.
+/-- the quoted / triple-quoted presentation of the key and its colon fit: lines of `Spec.splitLines` (terminators LF, CR LF,
+    CR), lengths in code units, `LINE` = 2048.
     * a one-line key: it is quoted with `'` or `"` — one of the two does not occur in it — and the closing quote must leave a
       column for the colon: `length + 3 ≤ LINE`; or else, holding both, it is triple-quoted — it neither ends in the quote
       character nor contains three of them in a row (`tripleOk`) — on one line with its colon: `length + 7 ≤ LINE`;
     * a key of several lines can only be triple-quoted: no line longer than `LINE`, the last line with the closing delimiter and
-      the colon within the line (`last + 3 < LINE`), and the first line with the opening delimiter STRICTLY shorter than the line
-      (`first + 3 < LINE` — `cif_analyze_string` compares with `<`; see `keyWritable` / `C02_cex_key_first_line`). -/
-def keyPresented (k : Str) : Bool :=
+      the colon within the line (`last + 3 < LINE`), the first line with the opening delimiter within the line
+      (`first + 3 ≤ LINE` — it may fill the line; `cif_analyze_string` compared with `<` until the repair of F-key-first-line). -/
+def keyFits (k : Str) : Bool :=
   let ls := Spec.splitLines k
   if ls.length = 1 then
     (decide (k.length + 3 ≤ LINE) && (cnt k 39 == 0 || cnt k 34 == 0))
       || (decide (k.length + 7 ≤ LINE) && (tripleOk 39 k || tripleOk 34 k))
   else
-    decide (Spec.maxLen ls ≤ LINE) && decide ((ls.getLastD []).length + 3 < LINE) && decide ((ls.headD []).length + 3 < LINE)
+    decide (Spec.maxLen ls ≤ LINE) && decide ((ls.getLastD []).length + 3 < LINE) && decide ((ls.headD []).length + 3 ≤ LINE)
       && (tripleOk 39 k || tripleOk 34 k)
 
-/-- what the CIF 2.0 syntax and the line limit admit (independent of the code): the key has a quoted or triple-quoted
-    presentation that, followed by its colon, keeps every line within `LINE` when it starts a line.  Differs from `keyPresented`
-    in one place: the first line of a multi-line key may FILL the line (`first + 3 ≤ LINE`). -/
+/-- **the keys `write_table` writes** (all others are refused with CIF_DISALLOWED_VALUE), as a predicate on the key alone: no
+    carriage return (`write_char` refuses it at once) and a quoted or triple-quoted presentation that fits with its colon -/
+def keyPresented (k : Str) : Bool := !(k.contains 13) && keyFits k
+
+/-- what the CIF 2.0 syntax and the line limit admit (written independently of the code): no CR — a reader would take it for a
+    line terminator —, and the key has a quoted or triple-quoted presentation that, followed by its colon, keeps every line
+    within `LINE` when it starts a line -/
 def keyWritable (k : Str) : Bool :=
-  let ls := Spec.splitLines k
-  if ls.length = 1 then
-    (decide (k.length + 3 ≤ LINE) && (cnt k 39 == 0 || cnt k 34 == 0))
-      || (decide (k.length + 7 ≤ LINE) && (tripleOk 39 k || tripleOk 34 k))
-  else
-    decide (Spec.maxLen ls ≤ LINE) && decide ((ls.getLastD []).length + 4 ≤ LINE) && decide ((ls.headD []).length + 3 ≤ LINE)
-      && (tripleOk 39 k || tripleOk 34 k)
+  !(k.contains 13) &&
+  (let ls := Spec.splitLines k
+   if ls.length = 1 then
+     (decide (k.length + 3 ≤ LINE) && (cnt k 39 == 0 || cnt k 34 == 0))
+       || (decide (k.length + 7 ≤ LINE) && (tripleOk 39 k || tripleOk 34 k))
+   else
+     decide (Spec.maxLen ls ≤ LINE) && decide ((ls.getLastD []).length + 4 ≤ LINE) && decide ((ls.headD []).length + 3 ≤ LINE)
+       && (tripleOk 39 k || tripleOk 34 k))
 
-/-- every key the writer presents is writable … -/
-theorem keyWritable_of_presented (k : Str) (h : keyPresented k = true) : keyWritable k = true := by
-  unfold keyPresented at h
-  unfold keyWritable
-  by_cases h1 : (Spec.splitLines k).length = 1
-  · simpa [h1] using h
-  · simp only [h1, if_false, Bool.and_eq_true, decide_eq_true_eq] at h ⊢
-    obtain ⟨⟨⟨a, b⟩, c⟩, d⟩ := h
-    exact ⟨⟨⟨a, by omega⟩, by omega⟩, d⟩
-
-/-- … and the writable keys it refuses are exactly the multi-line keys whose first line has `LINE − 3` units -/
-theorem keyWritable_not_presented (k : Str) :
-    (keyWritable k = true ∧ keyPresented k = false) ↔
-      (keyWritable k = true ∧ (Spec.splitLines k).length ≠ 1 ∧ ((Spec.splitLines k).headD []).length + 3 = LINE) := by
-  unfold keyPresented keyWritable
-  by_cases h1 : (Spec.splitLines k).length = 1
-  · simp only [h1, if_true, ne_eq, not_true_eq_false, false_and, and_false, iff_false, not_and, Bool.not_eq_false]
-    exact fun h => h
-  · simp only [h1, if_false, ne_eq, not_false_eq_true, true_and, Bool.and_eq_true, decide_eq_true_eq]
-    constructor
-    · rintro ⟨⟨⟨⟨a, b⟩, c⟩, d⟩, hn⟩
-      refine ⟨⟨⟨⟨a, b⟩, c⟩, d⟩, ?_⟩
-      by_cases e : ((Spec.splitLines k).headD []).length + 3 = LINE
-      · exact e
-      · exfalso
-        have : (decide (Spec.maxLen (Spec.splitLines k) ≤ LINE) && decide (((Spec.splitLines k).getLastD []).length + 3 < LINE)
-            && decide (((Spec.splitLines k).headD []).length + 3 < LINE) && (tripleOk 39 k || tripleOk 34 k)) = true := by
-          simp only [Bool.and_eq_true, decide_eq_true_eq]
-          exact ⟨⟨⟨a, by omega⟩, by omega⟩, d⟩
-        rw [this] at hn; cases hn
-    · rintro ⟨⟨⟨⟨a, b⟩, c⟩, d⟩, e⟩
-      refine ⟨⟨⟨⟨a, b⟩, c⟩, d⟩, ?_⟩
-      have : decide (((Spec.splitLines k).headD []).length + 3 < LINE) = false := by
-        simp only [decide_eq_false_iff_not]; omega
-      rw [this]; simp
+/-- the keys the writer presents are exactly the writable ones -/
+theorem keyPresented_eq_writable (k : Str) : keyPresented k = keyWritable k := by
+  unfold keyPresented keyWritable keyFits
+  congr 1
 
 /-! ### the analysis of a key -/
 
@@ -156,9 +130,9 @@ theorem keyDelim_oneline (k : Str) (h : (Spec.splitLines k).length = 1) :
 theorem keyDelim_multiline (k : Str) (h : (Spec.splitLines k).length ≠ 1) :
     keyDelim k =
       if Spec.maxLen (Spec.splitLines k) ≤ LINE then
-        if ((Spec.splitLines k).getLastD []).length + 3 < LINE ∧ ((Spec.splitLines k).headD []).length + 3 < LINE
+        if ((Spec.splitLines k).getLastD []).length + 3 < LINE ∧ ((Spec.splitLines k).headD []).length + 3 ≤ LINE
             ∧ tripleOk 39 k = true then .apos3
-        else if ((Spec.splitLines k).getLastD []).length + 3 < LINE ∧ ((Spec.splitLines k).headD []).length + 3 < LINE
+        else if ((Spec.splitLines k).getLastD []).length + 3 < LINE ∧ ((Spec.splitLines k).headD []).length + 3 ≤ LINE
             ∧ tripleOk 34 k = true then .quot3
         else .text
       else .text := by
@@ -169,9 +143,9 @@ theorem keyDelim_multiline (k : Str) (h : (Spec.splitLines k).length ≠ 1) :
 
 /-! ### the key and its colon, from a column that leaves room -/
 
-/-- `write_char(key, no text field)` followed by `write_literal(":", CIF_NOWRAP)` -/
-def keyColon (key : Str) (c : Ctx) : W :=
-  andThen (writeChar c key true false) fun c3 =>
+/-- the core of `write_char(key, no text field)` followed by `write_literal(":", CIF_NOWRAP)` -/
+def keyColonCore (key : Str) (c : Ctx) : W :=
+  andThen (writeCharCore c key true false) fun c3 =>
     match writeLiteral c3 [58] false with
     | none => .error ErrCodes.CIF_DISALLOWED_VALUE
     | some r => .ok r
@@ -195,22 +169,22 @@ theorem analyze_key_delim (k : Str) :
   obtain ⟨a, _, c, d, _⟩ := C18_stats_exact k false true LINE
   exact ⟨rfl, rfl, a, c, d⟩
 
-/-- the result of `keyColon` from a column that is 0, or leaves 7 columns beyond the key: success exactly for presented keys -/
-theorem keyColon_spec (key : Str) (c : Ctx) (h2 : c.isCif1 = false)
+/-- the result of `keyColonCore` from a column that is 0, or leaves 7 columns beyond the key: success exactly for presented keys -/
+theorem keyColonCore_spec (key : Str) (c : Ctx) (h2 : c.isCif1 = false)
     (hcol : c.lastColumn = 0 ∨ c.lastColumn + key.length + 7 ≤ LINE) :
-    (keyPresented key = true → ∃ o c', keyColon key c = .ok (o, c') ∧ Same c c') ∧
-    (keyPresented key = false → keyColon key c = .error ErrCodes.CIF_DISALLOWED_VALUE) := by
+    (keyFits key = true → ∃ o c', keyColonCore key c = .ok (o, c') ∧ Same c c') ∧
+    (keyFits key = false → keyColonCore key c = .error ErrCodes.CIF_DISALLOWED_VALUE) := by
   have hv : ¬(c.isCif1 = true ∧ validate11 key = false) := by simp [h2]
   have hq : (!true) = false := rfl
   have ht : (!c.isCif1) = true := by simp [h2]
   obtain ⟨hd, hdl, hlen, hfirst, hlast⟩ := analyze_key_delim key
   -- the three ways the key is written
   have quoted : ∀ d : CU, key.length + 2 ≤ LINE →
-      keyColon key c = (if key.length + 3 ≤ LINE then
+      keyColonCore key c = (if key.length + 3 ≤ LINE then
           andThen (writeQuoted c key key.length d) fun c3 => .ok ([58], { c3 with lastColumn := c3.lastColumn + 1 })
         else .error ErrCodes.CIF_DISALLOWED_VALUE) →
-      (key.length + 3 ≤ LINE → ∃ o c', keyColon key c = .ok (o, c') ∧ Same c c') ∧
-      (¬ key.length + 3 ≤ LINE → keyColon key c = .error ErrCodes.CIF_DISALLOWED_VALUE) := by
+      (key.length + 3 ≤ LINE → ∃ o c', keyColonCore key c = .ok (o, c') ∧ Same c c') ∧
+      (¬ key.length + 3 ≤ LINE → keyColonCore key c = .error ErrCodes.CIF_DISALLOWED_VALUE) := by
     intro d _ he
     constructor
     · intro h3
@@ -224,13 +198,13 @@ theorem keyColon_spec (key : Str) (c : Ctx) (h2 : c.isCif1 = false)
       rw [he, if_neg h3]
   have quotedEq : ∀ d : CU, key.length + 2 ≤ LINE → (analyze key false true LINE).delimLength = 1 →
       (analyze key false true LINE).delim.headD 0 = d →
-      keyColon key c = (if key.length + 3 ≤ LINE then
+      keyColonCore key c = (if key.length + 3 ≤ LINE then
           andThen (writeQuoted c key key.length d) fun c3 => .ok ([58], { c3 with lastColumn := c3.lastColumn + 1 })
         else .error ErrCodes.CIF_DISALLOWED_VALUE) := by
     intro d h2' hdl1 hdd
     have e := Lemmas.WriterChar.writeChar_delim1 c key true false hv (by rw [hq, ht]; exact hdl1)
     rw [hq, ht, hlen, hdd] at e
-    unfold keyColon
+    unfold keyColonCore
     rw [e]
     unfold writeQuoted
     simp only [List.length_append, List.length_cons, List.length_nil, Lemmas.WriterChar.printfS_length]
@@ -249,7 +223,7 @@ theorem keyColon_spec (key : Str) (c : Ctx) (h2 : c.isCif1 = false)
       · omega
   -- triple quotes
   have tripleEq : ∀ d : CU, (analyze key false true LINE).delimLength = 3 → (analyze key false true LINE).delim.headD 0 = d →
-      keyColon key c = andThen (writeTripleQuoted c key ((Spec.splitLines key).headD []).length
+      keyColonCore key c = andThen (writeTripleQuoted c key ((Spec.splitLines key).headD []).length
           ((Spec.splitLines key).getLastD []).length d) fun c3 =>
         match writeLiteral c3 [58] false with
         | none => .error ErrCodes.CIF_DISALLOWED_VALUE
@@ -257,20 +231,20 @@ theorem keyColon_spec (key : Str) (c : Ctx) (h2 : c.isCif1 = false)
     intro d hdl3 hdd
     have e := Lemmas.WriterChar.writeChar_delim3 c key true false hv (by rw [hq, ht]; exact hdl3)
     rw [hq, ht, hfirst, hlast, hdd] at e
-    unfold keyColon
+    unfold keyColonCore
     rw [e]
   have hfl := head_line_le key
   by_cases h1 : (Spec.splitLines key).length = 1
   · -- a key of one line
     have hk := key_oneline key h1
     have hd1 := keyDelim_oneline key h1
-    have hP : keyPresented key = ((decide (key.length + 3 ≤ LINE) && (cnt key 39 == 0 || cnt key 34 == 0))
+    have hP : keyFits key = ((decide (key.length + 3 ≤ LINE) && (cnt key 39 == 0 || cnt key 34 == 0))
         || (decide (key.length + 7 ≤ LINE) && (tripleOk 39 key || tripleOk 34 key))) := by
-      unfold keyPresented; simp only [h1, if_true]
+      unfold keyFits; simp only [h1, if_true]
     have tripleOne : ∀ d : CU, (analyze key false true LINE).delimLength = 3 → (analyze key false true LINE).delim.headD 0 = d →
         key.length + 6 ≤ LINE →
-        (key.length + 7 ≤ LINE → ∃ o c', keyColon key c = .ok (o, c') ∧ Same c c') ∧
-        (¬ key.length + 7 ≤ LINE → keyColon key c = .error ErrCodes.CIF_DISALLOWED_VALUE) := by
+        (key.length + 7 ≤ LINE → ∃ o c', keyColonCore key c = .ok (o, c') ∧ Same c c') ∧
+        (¬ key.length + 7 ≤ LINE → keyColonCore key c = .error ErrCodes.CIF_DISALLOWED_VALUE) := by
       intro d hdl3 hdd h6
       rw [tripleEq d hdl3 hdd, hk]
       simp only [List.headD_cons, List.getLastD_cons, List.getLast?_nil, Option.getD_none, List.getLastD_nil]
@@ -298,7 +272,7 @@ theorem keyColon_spec (key : Str) (c : Ctx) (h2 : c.isCif1 = false)
       have hdl1 : (analyze key false true LINE).delimLength = 1 := by rw [hdl, hd1]; rfl
       have hdd : (analyze key false true LINE).delim.headD 0 = 39 := by rw [hd, hd1]; rfl
       have := quoted 39 ha.1 (quotedEq 39 ha.1 hdl1 hdd)
-      have hPe : keyPresented key = decide (key.length + 3 ≤ LINE) := by
+      have hPe : keyFits key = decide (key.length + 3 ≤ LINE) := by
         rw [hP]; simp only [ha.2, beq_self_eq_true, Bool.true_or, Bool.and_true]
         by_cases h3 : key.length + 3 ≤ LINE
         · simp [h3]
@@ -312,7 +286,7 @@ theorem keyColon_spec (key : Str) (c : Ctx) (h2 : c.isCif1 = false)
       have hdl1 : (analyze key false true LINE).delimLength = 1 := by rw [hdl, hd1]; rfl
       have hdd : (analyze key false true LINE).delim.headD 0 = 34 := by rw [hd, hd1]; rfl
       have := quoted 34 hb.1 (quotedEq 34 hb.1 hdl1 hdd)
-      have hPe : keyPresented key = decide (key.length + 3 ≤ LINE) := by
+      have hPe : keyFits key = decide (key.length + 3 ≤ LINE) := by
         rw [hP]; simp only [hb.2, beq_self_eq_true, Bool.or_true, Bool.and_true]
         by_cases h3 : key.length + 3 ≤ LINE
         · simp [h3]
@@ -333,7 +307,7 @@ theorem keyColon_spec (key : Str) (c : Ctx) (h2 : c.isCif1 = false)
       have hdl3 : (analyze key false true LINE).delimLength = 3 := by rw [hdl, hd1]; rfl
       have hdd : (analyze key false true LINE).delim.headD 0 = 39 := by rw [hd, hd1]; rfl
       have := tripleOne 39 hdl3 hdd hc.1
-      have hPe : keyPresented key = decide (key.length + 7 ≤ LINE) := by
+      have hPe : keyFits key = decide (key.length + 7 ≤ LINE) := by
         rw [hP, hq1]; simp [hc.2]
       rw [hPe]
       exact ⟨fun h => this.1 (by simpa using h), fun h => this.2 (by simpa using h)⟩
@@ -343,14 +317,14 @@ theorem keyColon_spec (key : Str) (c : Ctx) (h2 : c.isCif1 = false)
       have hdl3 : (analyze key false true LINE).delimLength = 3 := by rw [hdl, hd1]; rfl
       have hdd : (analyze key false true LINE).delim.headD 0 = 34 := by rw [hd, hd1]; rfl
       have := tripleOne 34 hdl3 hdd hd'.1
-      have hPe : keyPresented key = decide (key.length + 7 ≤ LINE) := by
+      have hPe : keyFits key = decide (key.length + 7 ≤ LINE) := by
         rw [hP, hq1]; simp [hd'.2]
       rw [hPe]
       exact ⟨fun h => this.1 (by simpa using h), fun h => this.2 (by simpa using h)⟩
     rw [if_neg hd'] at hd1
     -- only a text field is left: refused
     have hdl2 : (analyze key false true LINE).delimLength = 2 := by rw [hdl, hd1]; rfl
-    have hPf : keyPresented key = false := by
+    have hPf : keyFits key = false := by
       rw [hP, hq1]
       by_cases h7 : key.length + 7 ≤ LINE
       · have c1 : tripleOk 39 key = false := by
@@ -365,19 +339,19 @@ theorem keyColon_spec (key : Str) (c : Ctx) (h2 : c.isCif1 = false)
       · simp [h7]
     rw [hPf]
     refine ⟨fun h => (by cases h), fun _ => ?_⟩
-    unfold keyColon
+    unfold keyColonCore
     rw [Lemmas.WriterChar.writeChar_delim2_refused c key true false hv (by rw [hq, ht]; exact hdl2) (Or.inl rfl)]
     rfl
   · -- a key of several lines
     have hdm := keyDelim_multiline key h1
     have hlt := first_lt_of_lines key h1
-    have hP : keyPresented key = (decide (Spec.maxLen (Spec.splitLines key) ≤ LINE)
+    have hP : keyFits key = (decide (Spec.maxLen (Spec.splitLines key) ≤ LINE)
         && decide (((Spec.splitLines key).getLastD []).length + 3 < LINE)
-        && decide (((Spec.splitLines key).headD []).length + 3 < LINE) && (tripleOk 39 key || tripleOk 34 key)) := by
-      unfold keyPresented; simp only [h1, if_false]
+        && decide (((Spec.splitLines key).headD []).length + 3 ≤ LINE) && (tripleOk 39 key || tripleOk 34 key)) := by
+      unfold keyFits; simp only [h1, if_false]
     have tripleMany : ∀ d : CU, (analyze key false true LINE).delimLength = 3 → (analyze key false true LINE).delim.headD 0 = d →
         ((Spec.splitLines key).getLastD []).length + 3 < LINE →
-        ∃ o c', keyColon key c = .ok (o, c') ∧ Same c c' := by
+        ∃ o c', keyColonCore key c = .ok (o, c') ∧ Same c c' := by
       intro d hdl3 hdd hl3
       rw [tripleEq d hdl3 hdd]
       unfold writeTripleQuoted
@@ -390,30 +364,30 @@ theorem keyColon_spec (key : Str) (c : Ctx) (h2 : c.isCif1 = false)
       · simp only; omega
     by_cases hm : Spec.maxLen (Spec.splitLines key) ≤ LINE
     · rw [if_pos hm] at hdm
-      by_cases ha : ((Spec.splitLines key).getLastD []).length + 3 < LINE ∧ ((Spec.splitLines key).headD []).length + 3 < LINE
+      by_cases ha : ((Spec.splitLines key).getLastD []).length + 3 < LINE ∧ ((Spec.splitLines key).headD []).length + 3 ≤ LINE
           ∧ tripleOk 39 key = true
       · rw [if_pos ha] at hdm
         have hdl3 : (analyze key false true LINE).delimLength = 3 := by rw [hdl, hdm]; rfl
         have hdd : (analyze key false true LINE).delim.headD 0 = 39 := by rw [hd, hdm]; rfl
-        have hPt : keyPresented key = true := by
+        have hPt : keyFits key = true := by
           rw [hP]; simp only [Bool.and_eq_true, decide_eq_true_eq, Bool.or_eq_true]
           exact ⟨⟨⟨hm, ha.1⟩, ha.2.1⟩, Or.inl ha.2.2⟩
         rw [hPt]
         exact ⟨fun _ => tripleMany 39 hdl3 hdd ha.1, fun h => (by cases h)⟩
       rw [if_neg ha] at hdm
-      by_cases hb : ((Spec.splitLines key).getLastD []).length + 3 < LINE ∧ ((Spec.splitLines key).headD []).length + 3 < LINE
+      by_cases hb : ((Spec.splitLines key).getLastD []).length + 3 < LINE ∧ ((Spec.splitLines key).headD []).length + 3 ≤ LINE
           ∧ tripleOk 34 key = true
       · rw [if_pos hb] at hdm
         have hdl3 : (analyze key false true LINE).delimLength = 3 := by rw [hdl, hdm]; rfl
         have hdd : (analyze key false true LINE).delim.headD 0 = 34 := by rw [hd, hdm]; rfl
-        have hPt : keyPresented key = true := by
+        have hPt : keyFits key = true := by
           rw [hP]; simp only [Bool.and_eq_true, decide_eq_true_eq, Bool.or_eq_true]
           exact ⟨⟨⟨hm, hb.1⟩, hb.2.1⟩, Or.inr hb.2.2⟩
         rw [hPt]
         exact ⟨fun _ => tripleMany 34 hdl3 hdd hb.1, fun h => (by cases h)⟩
       rw [if_neg hb] at hdm
       have hdl2 : (analyze key false true LINE).delimLength = 2 := by rw [hdl, hdm]; rfl
-      have hPf : keyPresented key = false := by
+      have hPf : keyFits key = false := by
         rw [hP]
         apply Bool.eq_false_iff.mpr
         intro h
@@ -424,17 +398,47 @@ theorem keyColon_spec (key : Str) (c : Ctx) (h2 : c.isCif1 = false)
         · exact hb ⟨hl, hf, ht⟩
       rw [hPf]
       refine ⟨fun h => (by cases h), fun _ => ?_⟩
-      unfold keyColon
+      unfold keyColonCore
       rw [Lemmas.WriterChar.writeChar_delim2_refused c key true false hv (by rw [hq, ht]; exact hdl2) (Or.inl rfl)]
       rfl
     · rw [if_neg hm] at hdm
       have hdl2 : (analyze key false true LINE).delimLength = 2 := by rw [hdl, hdm]; rfl
-      have hPf : keyPresented key = false := by rw [hP]; simp [hm]
+      have hPf : keyFits key = false := by rw [hP]; simp [hm]
       rw [hPf]
       refine ⟨fun h => (by cases h), fun _ => ?_⟩
-      unfold keyColon
+      unfold keyColonCore
       rw [Lemmas.WriterChar.writeChar_delim2_refused c key true false hv (by rw [hq, ht]; exact hdl2) (Or.inl rfl)]
       rfl
+
+/-- `write_char(key, no text field)` followed by `write_literal(":", CIF_NOWRAP)` -/
+def keyColon (key : Str) (c : Ctx) : W :=
+  andThen (writeChar c key true false) fun c3 =>
+    match writeLiteral c3 [58] false with
+    | none => .error ErrCodes.CIF_DISALLOWED_VALUE
+    | some r => .ok r
+
+/-- the result of `keyColon` from a column that is 0, or leaves 7 columns beyond the key, for a key of allowed characters (every
+    key the API stores): success exactly for presented keys, CIF_DISALLOWED_VALUE otherwise -/
+theorem keyColon_spec (key : Str) (c : Ctx) (h2 : c.isCif1 = false) (hdis : Model.hasDisallowed key = false)
+    (hcol : c.lastColumn = 0 ∨ c.lastColumn + key.length + 7 ≤ LINE) :
+    (keyPresented key = true → ∃ o c', keyColon key c = .ok (o, c') ∧ Same c c') ∧
+    (keyPresented key = false → keyColon key c = .error ErrCodes.CIF_DISALLOWED_VALUE) := by
+  by_cases h13 : (13 : CU) ∈ key
+  · have hc : key.contains 13 = true := by simpa using h13
+    have hP : keyPresented key = false := by unfold keyPresented; rw [hc]; rfl
+    rw [hP]
+    refine ⟨fun h => (by cases h), fun _ => ?_⟩
+    unfold keyColon
+    rw [Lemmas.WriterChar.writeChar_cr c key true false h13]
+    rfl
+  · have hc : key.contains 13 = false := by simpa using h13
+    have hP : keyPresented key = keyFits key := by unfold keyPresented; rw [hc]; rfl
+    have hcl : Lemmas.WriterChar.strClean c.isCif1 key = true := Lemmas.WriterChar.strClean_of _ key h13 (fun _ => hdis)
+    have e : keyColon key c = keyColonCore key c := by
+      unfold keyColon keyColonCore
+      rw [Lemmas.WriterChar.writeChar_clean c key true false hcl]
+    rw [hP, e]
+    exact keyColonCore_spec key c h2 hcol
 
 /-! ### the entry loop up to the colon, from ANY column -/
 
@@ -558,12 +562,13 @@ theorem Tot.ok_iff {R : Ctx → Ctx → Prop} {c : Ctx} {r : W} {P : Prop} (h : 
   · obtain ⟨o, c', e', _⟩ := h.1 hp
     rw [e'] at e; cases e
 
-theorem tot_keyStep (key : Str) (c : Ctx) (h2 : c.isCif1 = false) : Tot Same c (keyStep key c) (keyPresented key = true) := by
+theorem tot_keyStep (key : Str) (c : Ctx) (h2 : c.isCif1 = false) (hdis : Model.hasDisallowed key = false) :
+    Tot Same c (keyStep key c) (keyPresented key = true) := by
   obtain ⟨hs, hcol⟩ := keyLead_column key c
   unfold keyStep
   generalize keyLead key c = p1 at hs hcol
   have h22 : p1.2.isCif1 = false := by rw [hs.isCif1]; exact h2
-  obtain ⟨ha, hb⟩ := keyColon_spec key p1.2 h22 hcol
+  obtain ⟨ha, hb⟩ := keyColon_spec key p1.2 h22 hdis hcol
   have T : Tot Same p1.2 (keyColon key p1.2) (keyPresented key = true) := by
     refine ⟨ha, fun hn => hb ?_⟩
     cases hk : keyPresented key with
@@ -604,61 +609,67 @@ theorem tot_bracket (c2 c2' : Ctx) (hv : c2'.version = c2.version) (inner : W) (
 
 mutual
   theorem tot_item (n : Str) (v : V) (c : Ctx) (h2 : c.isCif1 = false) (hn : c.writeItemNames = true → nameOk n)
-      (hv : valueOk v = true) : Tot Same c (writeItem n v c) (valueKP v = true) := by
+      (hv : valueOk v = true) (hcl : valueClean false v = true) : Tot Same c (writeItem n v c) (valueKP v = true) := by
     unfold writeItem
     have hhead := tot_of_good (writeItemHead_good c n h2 hn False)
     refine (tot_andThen same_trans hhead (P2 := valueKP v = true) ?_).iff (by simp)
     intro c1 hs1
     have h21 : c1.isCif1 = false := by rw [hs1.isCif1]; exact h2
-    match v, hv with
-    | .chr q t, _ => exact (tot_of_good (writeChar_value_good c1 t q h21 False)).iff (by simp [valueKP])
-    | .numb q t _ _ _ _, hv =>
-      refine (tot_of_good (writeNumb_good c1 t q h21 ?_ False)).iff (by simp [valueKP])
+    match v, hv, hcl with
+    | .chr q t, _, hcl =>
+      exact (tot_of_good (writeChar_value_good c1 t q h21 (by simpa [valueClean] using hcl) False)).iff (by simp [valueKP])
+    | .numb q t _ _ _ _, hv, hcl =>
+      refine (tot_of_good (writeNumb_good c1 t q h21 ?_ (by simpa [valueClean] using hcl) False)).iff (by simp [valueKP])
       intro e; subst e; simp [valueOk] at hv
-    | .na, _ => exact (tot_of_good (literalOrError_wrap_good _ _ False)).iff (by simp [valueKP])
-    | .unk, _ => exact (tot_of_good (literalOrError_wrap_good _ _ False)).iff (by simp [valueKP])
-    | .lst vs, hv =>
+    | .na, _, _ => exact (tot_of_good (literalOrError_wrap_good _ _ False)).iff (by simp [valueKP])
+    | .unk, _, _ => exact (tot_of_good (literalOrError_wrap_good _ _ False)).iff (by simp [valueKP])
+    | .lst vs, hv, hcl =>
       simp only [h21, Bool.false_eq_true, if_false]
       refine (tot_andThen same_trans (tot_of_good (literalOrError_wrap_good c1 [91] False)) (P2 := elemsKP vs = true) ?_).iff
         (by simp [valueKP])
       intro c2 hs2
       have hE := tot_elems vs { c2 with writeItemNames := false, separateValues := true }
         (by have := hs2.isCif1; simp only [Ctx.isCif1] at this h21 ⊢; rw [this]; exact h21) rfl (by simpa [valueOk] using hv)
+        (by simpa [valueClean] using hcl)
       exact tot_bracket c2 { c2 with writeItemNames := false, separateValues := true } rfl _ [32, 93] _ hE
-    | .tbl es, hv =>
+    | .tbl es, hv, hcl =>
       simp only [h21, Bool.false_eq_true, if_false]
       refine (tot_andThen same_trans (tot_of_good (literalOrError_wrap_good c1 [123] False)) (P2 := entriesKP es = true) ?_).iff
         (by simp [valueKP])
       intro c2 hs2
       have hE := tot_entries es { c2 with writeItemNames := false }
         (by have := hs2.isCif1; simp only [Ctx.isCif1] at this h21 ⊢; rw [this]; exact h21) rfl (by simpa [valueOk] using hv)
+        (by simpa [valueClean] using hcl)
       exact tot_bracket c2 { c2 with writeItemNames := false } rfl _ [32, 125] _ hE
   theorem tot_elems (vs : List V) (c : Ctx) (h2 : c.isCif1 = false) (hnm : c.writeItemNames = false)
-      (hv : elemsOk vs = true) : Tot Same c (writeElems vs c) (elemsKP vs = true) := by
-    match vs, hv with
-    | [], _ => unfold writeElems; exact (tot_ok (Same.refl c)).iff (by simp [elemsKP])
-    | v :: rest, hv =>
+      (hv : elemsOk vs = true) (hcl : elemsClean false vs = true) : Tot Same c (writeElems vs c) (elemsKP vs = true) := by
+    match vs, hv, hcl with
+    | [], _, _ => unfold writeElems; exact (tot_ok (Same.refl c)).iff (by simp [elemsKP])
+    | v :: rest, hv, hcl =>
       unfold writeElems
       simp only [elemsOk, Bool.and_eq_true] at hv
-      refine (tot_andThen same_trans (tot_item [] v c h2 (by intro h; rw [hnm] at h; cases h) hv.1)
+      simp only [elemsClean, Bool.and_eq_true] at hcl
+      refine (tot_andThen same_trans (tot_item [] v c h2 (by intro h; rw [hnm] at h; cases h) hv.1 hcl.1)
         (P2 := elemsKP rest = true) ?_).iff (by simp [elemsKP])
       intro c1 hs1
-      exact tot_elems rest c1 (by rw [hs1.isCif1]; exact h2) (by rw [hs1.names]; exact hnm) hv.2
+      exact tot_elems rest c1 (by rw [hs1.isCif1]; exact h2) (by rw [hs1.names]; exact hnm) hv.2 hcl.2
   theorem tot_entries (es : List (Str × Str × V)) (c : Ctx) (h2 : c.isCif1 = false) (hnm : c.writeItemNames = false)
-      (hv : entriesOk es = true) : Tot Same c (writeEntries es c) (entriesKP es = true) := by
-    match es, hv with
-    | [], _ => unfold writeEntries; exact (tot_ok (Same.refl c)).iff (by simp [entriesKP])
-    | (kn, key, v) :: rest, hv =>
+      (hv : entriesOk es = true) (hcl : entriesClean false es = true) : Tot Same c (writeEntries es c) (entriesKP es = true) := by
+    match es, hv, hcl with
+    | [], _, _ => unfold writeEntries; exact (tot_ok (Same.refl c)).iff (by simp [entriesKP])
+    | (kn, key, v) :: rest, hv, hcl =>
       rw [writeEntries_cons]
       simp only [entriesOk, Bool.and_eq_true] at hv
-      refine (tot_andThen same_trans (tot_keyStep key c h2) (P2 := valueKP v = true ∧ entriesKP rest = true) ?_).iff
+      simp only [entriesClean, Bool.and_eq_true] at hcl
+      refine (tot_andThen same_trans (tot_keyStep key c h2 (Lemmas.WriterChar.strClean_allowed key hcl.1.1))
+        (P2 := valueKP v = true ∧ entriesKP rest = true) ?_).iff
         (by simp [entriesKP, and_assoc])
       intro c4 hs4
       have h24 : c4.isCif1 = false := by rw [hs4.isCif1]; exact h2
       have hnm4 : c4.writeItemNames = false := by rw [hs4.names]; exact hnm
-      refine tot_andThen same_trans (tot_item [] v c4 h24 (by intro h; rw [hnm4] at h; cases h) hv.1) ?_
+      refine tot_andThen same_trans (tot_item [] v c4 h24 (by intro h; rw [hnm4] at h; cases h) hv.1 hcl.1.2) ?_
       intro c5 hs5
-      exact tot_entries rest c5 (by rw [hs5.isCif1]; exact h24) (by rw [hs5.names]; exact hnm4) hv.2
+      exact tot_entries rest c5 (by rw [hs5.isCif1]; exact h24) (by rw [hs5.names]; exact hnm4) hv.2 hcl.2
 end
 
 /-! ### items, packets, loops, containers, the CIF -/
@@ -684,35 +695,39 @@ mutual
     | k :: r => containerKP k && containersKP r
 end
 
-theorem tot_items : ∀ (p : List (Str × V)) (c : Ctx), c.isCif1 = false → itemsOk c.writeItemNames p →
+theorem tot_items : ∀ (p : List (Str × V)) (c : Ctx), c.isCif1 = false → itemsOk c.writeItemNames p → itemsClean false p →
     Tot Same c (writeItems p c) (itemsKP p = true) := by
   intro p
   induction p with
-  | nil => intro c _ _; exact (tot_ok (Same.refl c)).iff (by simp [itemsKP])
+  | nil => intro c _ _ _; exact (tot_ok (Same.refl c)).iff (by simp [itemsKP])
   | cons nv rest ih =>
-    intro c h2 hok
+    intro c h2 hok hcl
     obtain ⟨n, v⟩ := nv
     simp only [writeItems]
     have h1 := hok (n, v) List.mem_cons_self
-    refine (tot_andThen same_trans (tot_item n v c h2 h1.2 h1.1) (P2 := itemsKP rest = true) ?_).iff (by simp [itemsKP])
+    refine (tot_andThen same_trans (tot_item n v c h2 h1.2 h1.1 (hcl (n, v) List.mem_cons_self)) (P2 := itemsKP rest = true) ?_).iff
+      (by simp [itemsKP])
     intro c1 hs1
     exact ih c1 (by rw [hs1.isCif1]; exact h2) (by rw [hs1.names]; exact fun x hx => hok x (List.mem_cons_of_mem _ hx))
+      (fun x hx => hcl x (List.mem_cons_of_mem _ hx))
 
 theorem tot_packets : ∀ (ps : List (List (Str × V))) (c : Ctx), c.isCif1 = false → (∀ p ∈ ps, itemsOk c.writeItemNames p) →
-    Tot Same c (writePackets ps c) (packetsKP ps = true) := by
+    (∀ p ∈ ps, itemsClean false p) → Tot Same c (writePackets ps c) (packetsKP ps = true) := by
   intro ps
   induction ps with
-  | nil => intro c _ _; exact (tot_ok (Same.refl c)).iff (by simp [packetsKP])
+  | nil => intro c _ _ _; exact (tot_ok (Same.refl c)).iff (by simp [packetsKP])
   | cons p rest ih =>
-    intro c h2 hok
+    intro c h2 hok hcl
     simp only [writePackets, writePacket]
     have hp : Tot Same c (andThen (writeItems p c) fun c1 => .ok (writeNewline c1)) (itemsKP p = true ∧ True) :=
-      tot_andThen same_trans (tot_items p c h2 (hok p List.mem_cons_self)) (fun c1 _ => tot_ok (writeNewline_same c1))
+      tot_andThen same_trans (tot_items p c h2 (hok p List.mem_cons_self) (hcl p List.mem_cons_self))
+        (fun c1 _ => tot_ok (writeNewline_same c1))
     refine (tot_andThen same_trans hp (P2 := packetsKP rest = true) ?_).iff (by simp [packetsKP])
     intro c1 hs1
     exact ih c1 (by rw [hs1.isCif1]; exact h2) (by rw [hs1.names]; exact fun x hx => hok x (List.mem_cons_of_mem _ hx))
+      (fun x hx => hcl x (List.mem_cons_of_mem _ hx))
 
-theorem tot_loop (l : WLoop) (c : Ctx) (h2 : c.isCif1 = false) (hok : loopOk l) :
+theorem tot_loop (l : WLoop) (c : Ctx) (h2 : c.isCif1 = false) (hok : loopOk l) (hcl : loopClean false l) :
     Tot SameV c (writeLoop l c) (packetsKP l.packets = true) := by
   unfold writeLoop
   have hne : l.packets.isEmpty = false := by
@@ -724,7 +739,7 @@ theorem tot_loop (l : WLoop) (c : Ctx) (h2 : c.isCif1 = false) (hok : loopOk l) 
           else andThen (writePackets l.packets c1) fun c2 => .ok (writeNewline c2)) c1) (packetsKP l.packets = true) := by
     intro c1 hc1 hn
     simp only [hne, Bool.false_eq_true, if_false]
-    have hp := tot_packets l.packets c1 hc1 (by rw [hn]; exact hok.2)
+    have hp := tot_packets l.packets c1 hc1 (by rw [hn]; exact hok.2) hcl
     exact (tot_andThen same_trans hp (fun c2 _ => tot_ok (R := Same) (o := (writeNewline c2).1) (writeNewline_same c2))).iff (by simp)
   cases hs : isScalars l.category with
   | true =>
@@ -745,25 +760,26 @@ theorem tot_loop (l : WLoop) (c : Ctx) (h2 : c.isCif1 = false) (hok : loopOk l) 
           else andThen (writePackets l.packets c1) fun c2 => .ok (writeNewline c2)) hk
     exact this.rel (R' := SameV) (c := c) (fun b hb => by unfold SameV; rw [hb.1, hsh.1])
 
-theorem tot_loops : ∀ (ls : List WLoop) (c : Ctx), c.isCif1 = false → (∀ l ∈ ls, loopOk l) →
+theorem tot_loops : ∀ (ls : List WLoop) (c : Ctx), c.isCif1 = false → (∀ l ∈ ls, loopOk l) → (∀ l ∈ ls, loopClean false l) →
     Tot SameV c (writeLoops ls c) (loopsKP ls = true) := by
   intro ls
   induction ls with
-  | nil => intro c _ _; exact (tot_ok (R := SameV) rfl).iff (by simp [loopsKP])
+  | nil => intro c _ _ _; exact (tot_ok (R := SameV) rfl).iff (by simp [loopsKP])
   | cons l rest ih =>
-    intro c h2 hok
+    intro c h2 hok hcl
     simp only [writeLoops]
-    refine (tot_andThen sameV_trans (tot_loop l c h2 (hok l List.mem_cons_self)) (P2 := loopsKP rest = true) ?_).iff
-      (by simp [loopsKP])
+    refine (tot_andThen sameV_trans (tot_loop l c h2 (hok l List.mem_cons_self) (hcl l List.mem_cons_self))
+      (P2 := loopsKP rest = true) ?_).iff (by simp [loopsKP])
     intro c1 hv
-    exact ih c1 (by rw [hv.isCif1]; exact h2) (fun x hx => hok x (List.mem_cons_of_mem _ hx))
+    exact ih c1 (by rw [hv.isCif1]; exact h2) (fun x hx => hok x (List.mem_cons_of_mem _ hx)) (fun x hx => hcl x (List.mem_cons_of_mem _ hx))
 
 mutual
-  theorem tot_container (k : WContainer) (c : Ctx) (h2 : c.isCif1 = false) (hok : containerOk k) :
+  theorem tot_container (k : WContainer) (c : Ctx) (h2 : c.isCif1 = false) (hok : containerOk k) (hcl : containerClean false k) :
       Tot SameV c (writeContainer k c) (containerKP k = true) := by
-    match k, hok with
-    | .mk code frames loops, hok =>
+    match k, hok, hcl with
+    | .mk code frames loops, hok, hcl =>
       simp only [containerOk] at hok
+      simp only [containerClean] at hcl
       unfold writeContainer
       simp only [h2, Bool.false_eq_true, false_and, if_false]
       have hc0 : ({ c with lastColumn := 0, depth := c.depth + 1 } : Ctx).isCif1 = false := by simpa [Ctx.isCif1] using h2
@@ -775,36 +791,37 @@ mutual
               else .ok (FRAME_END, { c3 with depth := c3.depth - 1, lastColumn := 0 })
       have hbody : Tot SameV { c with lastColumn := 0, depth := c.depth + 1 } (K { c with lastColumn := 0, depth := c.depth + 1 })
           (containersKP frames = true ∧ loopsKP loops = true ∧ True) := by
-        apply tot_andThen sameV_trans (tot_containers frames _ hc0 hok.1)
+        apply tot_andThen sameV_trans (tot_containers frames _ hc0 hok.1 hcl.1)
         intro c2 hv2
-        apply tot_andThen sameV_trans (tot_loops loops c2 (by rw [hv2.isCif1]; exact hc0) hok.2)
+        apply tot_andThen sameV_trans (tot_loops loops c2 (by rw [hv2.isCif1]; exact hc0) hok.2 hcl.2)
         intro c3 hv3
         split
         · exact tot_ok rfl
         · exact tot_ok rfl
       have := tot_andThen_ok ((if c.depth = 0 then BLOCK_HEAD else FRAME_HEAD) ++ code ++ [10]) K hbody
       exact (this.rel (R' := SameV) (c := c) (fun b hb => hb)).iff (by simp [containerKP])
-  theorem tot_containers (ks : List WContainer) (c : Ctx) (h2 : c.isCif1 = false) (hok : containersOk ks) :
-      Tot SameV c (writeContainers ks c) (containersKP ks = true) := by
-    match ks, hok with
-    | [], _ => unfold writeContainers; exact (tot_ok (R := SameV) rfl).iff (by simp [containersKP])
-    | k :: rest, hok =>
+  theorem tot_containers (ks : List WContainer) (c : Ctx) (h2 : c.isCif1 = false) (hok : containersOk ks)
+      (hcl : containersClean false ks) : Tot SameV c (writeContainers ks c) (containersKP ks = true) := by
+    match ks, hok, hcl with
+    | [], _, _ => unfold writeContainers; exact (tot_ok (R := SameV) rfl).iff (by simp [containersKP])
+    | k :: rest, hok, hcl =>
       simp only [containersOk] at hok
+      simp only [containersClean] at hcl
       unfold writeContainers
-      refine (tot_andThen sameV_trans (tot_container k c h2 hok.1) (P2 := containersKP rest = true) ?_).iff
+      refine (tot_andThen sameV_trans (tot_container k c h2 hok.1 hcl.1) (P2 := containersKP rest = true) ?_).iff
         (by simp [containersKP])
       intro c1 hv
-      exact tot_containers rest c1 (by rw [hv.isCif1]; exact h2) hok.2
+      exact tot_containers rest c1 (by rw [hv.isCif1]; exact h2) hok.2 hcl.2
 end
 
 /-- `cif_write` in CIF 2.0 mode: success exactly when every table key is presented, CIF_DISALLOWED_VALUE otherwise -/
-theorem tot_writeCif (cif : WCif) (hok : containersOk cif) :
+theorem tot_writeCif (cif : WCif) (hok : containersOk cif) (hcl : containersClean false cif) :
     ((∃ out, writeCif 0 cif = .ok out) ↔ containersKP cif = true) ∧
     (writeCif 0 cif = .error ErrCodes.CIF_DISALLOWED_VALUE ↔ containersKP cif = false) := by
   have h2 : ({ version := 0 } : Ctx).isCif1 = false := rfl
   have hbody : Tot SameV { version := 0 } ((fun c1 => andThen (writeContainers cif c1) fun c2 => (.ok (writeNewline c2) : W)) { version := 0 })
       (containersKP cif = true ∧ True) :=
-    tot_andThen sameV_trans (tot_containers cif _ h2 hok) (fun c2 _ => tot_ok rfl)
+    tot_andThen sameV_trans (tot_containers cif _ h2 hok hcl) (fun c2 _ => tot_ok rfl)
   have L := ((tot_andThen_ok MAGIC20 (fun c1 => andThen (writeContainers cif c1) fun c2 => (.ok (writeNewline c2) : W)) hbody).iff
     (P' := containersKP cif = true) (by simp)).ok_iff
   unfold writeCif
